@@ -2,9 +2,9 @@ package move
 
 import (
 	"github.com/ozontech/file.d/cfg"
-	"go.uber.org/zap"
 	"github.com/ozontech/file.d/pipeline"
 	insaneJSON "github.com/ozontech/insane-json"
+	"go.uber.org/zap"
 
 	vf "github.com/ozontech/file.d/zzverif"
 )
